@@ -108,6 +108,7 @@ def main(run: Run) -> int:
     except pyz3.Unsupported as u:
         run.ob("translate 931..935", "PZ", INCONCLUSIVE, detail=f"source outside PZ subset: {u}")
         witness_grid(run)
+        collision_histories(run)
         witnesses_only(run)
         return run.finish("other", "PZ could not translate the current source; only replayed witnesses", False)
 
@@ -245,6 +246,7 @@ def main(run: Run) -> int:
         )
     run.sample({"lemma": "[932] verdict", "query": "1996<=t<2038 ∧ |off|<24h ∧ verdict(t,off) ≠ documented(t)", "answer": "unsat expected"})
     witness_grid(run)
+    collision_histories(run)
     witnesses_only(run)
     run.assume(
         "a parsed aware datetime is faithfully represented by (UTC instant in whole seconds, notation offset in seconds); sub-second inputs are outside",
@@ -314,6 +316,45 @@ def witness_grid(run: Run):
     run.violation(name, what, feats, {"kind": "C20-iso", "property": "C20", "fc": key, "iso": iso, "t": t, "off": off})
 
 
+def collision_histories(run: Run):
+    """what was judged before must not matter: pairs of datetimes with the SAME written date and time but different offsets,
+    lying on opposite sides of a DST switch, judged one after the other in this process (the second one is a German-local
+    00:00 / 06:00 instant written with +00:00, +01:00 or +02:00); both verdicts against the documented one"""
+    first_offsets = [32400, -28800, 50400, 0, 7200, 3600, -12600]
+    n, bad = 0, []
+    for inst, new_off in tm.eu_switches(1996, 2037):
+        day0 = (inst // 86400) * 86400
+        for d in (-1, 0, 1):
+            for local in (0, 6 * 3600):
+                for eu in (3600, 7200):
+                    lim = day0 + d * 86400 + local - eu  # candidate limit instant (a real limit iff eu is the offset in force)
+                    for o2 in (0, 3600, 7200):
+                        for o1 in first_offsets:
+                            if o1 == o2:
+                                continue
+                            t1 = lim + o2 - o1  # same written wall clock, other offset
+                            if not (T1996 <= t1 < T2038 and T1996 <= lim < T2038) or (t1 >= inst) == (lim >= inst):
+                                continue
+                            iso1, iso2 = tm.render_iso(t1, o1), tm.render_iso(lim, o2)
+                            for key in KEYS:
+                                n += 2
+                                r1, _ = real_verdict(key, iso1)
+                                r2, info = real_verdict(key, iso2)
+                                if r1 != spec_native(key, t1, o1):
+                                    bad.append((key, [iso1], t1, o1, r1, spec_native(key, t1, o1)))
+                                if r2 != spec_native(key, lim, o2):
+                                    bad.append((key, [iso1, iso2], lim, o2, r2, spec_native(key, lim, o2)))
+    run.counters["replayed_witnesses"] += n
+    name = f"histories: {n // 10} pairs (same written date and time, different offsets, opposite sides of a DST switch) judged one after the other by the same evaluator, 5 constraints"
+    if not bad:
+        run.ob(name, "replay", HELD)
+        return
+    key, hist, t, off, real, want = bad[0]
+    what = f"after judging {hist[:-1]}: evaluate_{key}('{hist[-1]}') " + ("raises" if real == RAISED else f"is {'fulfilled' if real in (OK_, OK_MSG) else 'unfulfilled'}, documented: {'fulfilled' if want == OK_ else 'unfulfilled'}") + f" ({len(bad)} of {n} disagree)"
+    run.ob(name, "replay", VIOLATED, detail=what)
+    run.violation(name, what, {"key": key if key == "931" else "932-935", "kind": "history", "zero_offset_not_midnight": False}, {"kind": "C20-hist", "property": "C20", "fc": key, "history": hist, "t": t, "off": off})
+
+
 WITNESS_STRINGS = [None, "", " ", "foo", "2022-01-01", "2022-01-01T00:00:00", "2019-12-31T25:00:00+00:00", "2022-01-01T00:00:00+0", "Z", "2022-13-01T00:00:00Z", "0000-01-01T00:00:00Z", "2022-01-01T00:00:00+24:00", "١٢", "2022-01-01T00:00:00+01:00x", "T00:00:00+01:00"]
 
 
@@ -350,6 +391,12 @@ def replay(p: dict) -> dict:
             if real not in (OK_, BAD_MSG):
                 return {"outcome": "fail", "what": f"evaluate_{key}('{iso}') -> code {real}"}
         return {"outcome": "pass"}
+    if kind == "C20-hist":
+        real = None
+        for iso in p["history"]:
+            real, info = real_verdict(p["fc"], iso)
+        want = spec_native(p["fc"], p["t"], p["off"])
+        return {"outcome": "pass" if real == want else "fail", "what": f"after {p['history'][:-1]}: evaluate_{p['fc']}('{p['history'][-1]}') -> code {real}, documented {want}"}
     if kind == "C20-str":
         real, info = real_verdict(p["fc"], p["s"])
         return {"outcome": "pass" if real == BAD_MSG else "fail", "what": f"evaluate_{p['fc']}({p['s']!r}) -> {real} {info}"}
